@@ -371,6 +371,37 @@ def r4_call(ctx, nf) -> None:
               "all other ports of a Call are value ports typed by the instantiated signature", pk)
 
 
+def r4_instantiation(ctx) -> None:
+    """what `instantiation` is: the body for a function without type parameters (whatever was passed), the given one otherwise"""
+    from ..rulekit import unold
+    q = "hugr.ops._CallOrLoad.__init__"
+    fn, m, _ = ctx.locate(q)
+    a = [x.arg for x in fn.args.args]
+    if len(a) < 3:
+        ctx.broken("_CallOrLoad.__init__: expected (self, signature, instantiation, type_args)")
+    sig, inst = a[1], a[2]
+    ok = True
+    seen = set()
+    why = ""
+    for p in ctx.paths(q):
+        if p.kind == "raise":
+            continue
+        mono = [k for t, k in p.tests if u(t) in (f"len({sig}.params) == 0", f"0 == len({sig}.params)")] + \
+               [not k for t, k in p.tests if u(t) in (f"0 < len({sig}.params)", f"{sig}.params")]
+        st = [unold(e.value) for e in p.effects if isinstance(e, ast.Assign) and u(e.targets[0]) == "self.instantiation"]
+        ss = [unold(e.value) for e in p.effects if isinstance(e, ast.Assign) and u(e.targets[0]) == "self.signature"]
+        if not mono or len(st) != 1 or ss != [sig]:
+            ok, why = False, f"path {p.describe()[:160]} stores instantiation {st}, signature {ss}"
+            continue
+        seen.add(mono[0])
+        want = f"{sig}.body" if mono[0] else inst
+        if st[0] != want:
+            ok, why = False, f"{'without' if mono[0] else 'with'} type parameters the instantiation is `{st[0]}`, expected `{want}`"
+    ctx.check(ok and seen == {True, False}, "C06.R4", "hugr.ops._CallOrLoad.__init__: instantiation", m.path, fn.lineno,
+              "a function without type parameters has exactly one instance, its body (an `instantiation` argument is ignored); a polymorphic one is "
+              "used at the given instantiation; `signature` is the scheme itself" + (f" [{why}]" if why else ""), fn)
+
+
 def run(ctx) -> None:
     ctx.rule("C06.R1", "signature table: normal form of each signature method equals the specification row", floor=30)
     ctx.rule("C06.R2", "num_out equals the specified count and the length of the signature's output row", floor=30)
@@ -381,9 +412,14 @@ def run(ctx) -> None:
     r2_num_out(ctx, nf)
     r3_port_kinds(ctx, nf)
     r4_call(ctx, nf)
+    r4_instantiation(ctx)
     ctx.rule("C06.R5", "a reloaded op carries the fields its signature is computed from: S.deserialize ∘ X._to_serial is the identity on every init-field of every op class (shared with C02.R1)", floor=30)
     from .c02 import r1_forward_codec
     r1_forward_codec(ctx, nf, rule="C06.R5", modules=("hugr.ops",))
+    ctx.rule("C06.R6", "builders give container nodes the rows and output counts of their signature (break row of a tail loop, case outputs, exit row) (shared with C01.R3)", floor=30)
+    from .c01 import r3_rows
+    with ctx.as_rule(C01_R3="C06.R6"):
+        r3_rows(ctx)
     from .. import lints
     lints.arm(ctx)
 
